@@ -542,6 +542,9 @@ class Evaluator:
             key = self._slice(target.slice)
             if isinstance(container, (list, dict)):
                 container[key] = value
+            elif isinstance(container, Sym) and isinstance(target.slice, ast.Slice) and target.slice.lower is None and target.slice.upper is None and target.slice.step is None and isinstance(target.value, (ast.Attribute, ast.Name)):
+                # a[:] = v on an opaque array: every element replaced - the content is v from here on (aliasing of opaque arrays is not tracked)
+                self.assign(target.value, value)
             else:
                 raise NotEvaluable(f"subscript store into {type(container).__name__}")
         elif isinstance(target, ast.Attribute):
